@@ -295,8 +295,17 @@ def gen_cases(rng, tier, n_classes):
             bkeys = [changed_keys(doc, d) for d in bdocs]
         else:
             bkeys = []
-        cases.append({"suite": "schema", "cls": cls, "kws": kws, "bdocs": bdocs, "bkeys": bkeys,
-                      "re": gen.re_table(cls, kws, bdocs)})
+        case = {"suite": "schema", "cls": cls, "kws": kws, "bdocs": bdocs, "bkeys": bkeys,
+                "re": gen.re_table(cls, kws, bdocs)}
+        # oracle-only stream: a key-renaming serialization mapper (not in the Lean model)
+        wrapper = len(cls["fields"]) == 1 and set(cls["required"]) == {cls["fields"][0][0]} and cls.get("addl", True) is False
+        if rng.random() < 0.1 and not cls.get("collide") and not wrapper:
+            names = [n for n, _ in cls["fields"]]
+            chosen = [n for n in names if rng.random() < 0.6] or names[:1]
+            case["mapper"] = {n: rng.choice(["X_" + n.upper(), n + "Key", "k." + n if rng.random() < 0.1 else n.title()])
+                              for n in chosen}
+            case["bdocs"], case["bkeys"] = [], []
+        cases.append(case)
     return cases
 
 
@@ -380,6 +389,8 @@ def run_impl(case):
         if old in ctx.classes:
             ctx.classes[old].__name__ = new
     res = {"cls_actual": C.fix_accepts(dump.dump_class(cls, ctx, order="definition"))}
+    if case.get("mapper"):
+        cls = type(cls.__name__, (cls,), {"_serialization_mapper": dict(case["mapper"])})
     names = [n for n, _ in decl["fields"]]
     collapsed = len(names) == 1 and set(decl["required"]) == set(names) and decl.get("addl", True) is False
     res["collapsed"] = collapsed
@@ -576,8 +587,8 @@ def inexact_features(d, acc):
 
 def admit_key(err, cls=None):
     """stable name of the phenomenon behind a validation error of a serialized valid instance"""
-    if cls is not None and err.get("path"):
-        fd = dict((n, f) for n, f in cls["fields"]).get(err["path"][0])
+    if cls is not None and (err.get("path") or len(cls["fields"]) == 1):
+        fd = cls["fields"][0][1] if len(cls["fields"]) == 1 else dict((n, f) for n, f in cls["fields"]).get(err["path"][0])
         if fd is not None and "nested-field-wrapper" in inexact_features(fd, set()):
             return "nested-field-wrapper"
     if err.get("branches"):
@@ -630,6 +641,8 @@ def tags(case, impl, model):
     out = []
     if "unbuildable" in impl or "abstraction_mismatch" in impl:
         return ["impl:skipped"]
+    if case.get("mapper"):
+        out.append("stream:key-renaming-mapper(oracle only)")
     out.append("schema:" + ("raises:" + impl["schema_err"]["err"] if "schema_err" in impl else
                             ("wf" if impl.get("wf") and impl.get("refs_ok") else "ill-formed:" + (impl.get("wf_err") or {}).get("key", "ref"))))
     m = (model or {}).get("out", model) or {}
@@ -657,7 +670,7 @@ def describe(case, impl, model):
 
 
 def correspondence(case, impl, model):
-    if "unbuildable" in impl:
+    if "unbuildable" in impl or case.get("mapper"):
         return None
     if "abstraction_mismatch" in impl:
         return "dump(build(decl)) != decl: " + json.dumps(impl["abstraction_mismatch"])[:600]
@@ -683,7 +696,8 @@ def correspondence(case, impl, model):
         m = next(mi)
         if "doc" in r and "valid" in r and "validImpl" in m and m["validImpl"] != r["valid"]:
             return f"validator verdicts differ on a serialized instance: Lean jsValid={m['validImpl']}, Draft4Validator={r['valid']} ({r.get('error')}); doc " + json.dumps(r["doc"])[:300]
-        if scope and not impl.get("collapsed") and "ser_notjson" not in r:
+        # the serializer model (Sem/Serde.lean, C05's) is compared where the C08 theorems rely on it
+        if scope and model.get("inFrag") and not impl.get("collapsed") and "ser_notjson" not in r:
             ms = m.get("ser")
             if ms and not str(ms.get("err", "")).startswith("outside-model"):
                 if ("ok" in ms) != ("doc" in r):
@@ -710,11 +724,17 @@ def oracle(case, impl, model):
     if "unbuildable" in impl or "abstraction_mismatch" in impl:
         return fails
     kinds = "+".join(sorted({fd["k"] for _, fd in case["cls"]["fields"]}))[:60]
+    if case.get("mapper"):
+        # the Lean predicates describe the mapper-free class: use none of them
+        model = {"raises": model.get("raises")}
     if "schema_err" in impl:
         if not model.get("raises"):
             fails.append((f"unexpected-raise:{impl['schema_err']['err']}:{kinds}",
                           f"structure_to_schema raised {impl['schema_err']} on a mappable class"))
         return fails
+    if model.get("inWfFrag") and model.get("refsFaithful") and not (impl["wf"] and impl["refs_ok"]):
+        fails.append(("ill-formed:inside-the-proved-region",
+                      f"schema_wellformed_partial covers this class, yet the real schema is ill-formed: {impl.get('wf_err')} {impl.get('bad_refs')}"))
     if not impl["wf"]:
         e = impl["wf_err"]
         fails.append((f"ill-formed:{e['key']}", f"not a well-formed draft-4 schema after the dialect fix: {e['msg']} at {'/'.join(e['path'])}"))
@@ -724,7 +744,7 @@ def oracle(case, impl, model):
         fails.append(("definitions-name-collision", "two different classes share a __name__: one definition overwrites the other"))
     mi = iter(model.get("insts", []))
     for r in impl.get("insts", []):
-        m = next(mi) if "x" in r else {}
+        m = next(mi, {}) if "x" in r else {}
         if r.get("valid") is False and model.get("inFrag") and model.get("refsFaithful") and m.get("inRegion"):
             fails.append(("admits:inside-the-proved-region",
                           "schema_admits_partial covers this (class, instance), yet the real schema rejects the real "
